@@ -353,7 +353,7 @@ End Reassemble.
 (* B, D. RunInfo.__post_init__ and RunInfo.load on the folder of a run                                *)
 
 Definition base_files (ri : run_info) (inputs : list (str * pyv)) (dflt : pyv) : files :=
-  (PRunInfo, Json (encode ri)) :: map (fun kv => (PInput (fst kv), Pickled (snd kv))) inputs ++ [(PDefaults, Pickled dflt)].
+  map (fun kv => (PInput (fst kv), Pickled (snd kv))) inputs ++ [(PDefaults, Pickled dflt); (PRunInfo, Json (encode ri))].
 
 Lemma with_files_id w : with_files w (w_files w) = w.
 Proof. destruct w; reflexivity. Qed.
@@ -378,17 +378,24 @@ Proof.
   rewrite path_eqb_neq; [reflexivity|]. intros [= E]. apply Hn. rewrite <- E. now apply in_map.
 Qed.
 
+Lemma fs_get_inputs_other (inputs : list (str * pyv)) p :
+  (forall n, p <> PInput n) -> fs_get (map (fun kv => (PInput (fst kv), Pickled (snd kv))) inputs) p = None.
+Proof.
+  intros H. induction inputs as [|kv l IH]; [reflexivity|]. cbn [map fs_get]. rewrite path_eqb_neq; [exact IH|apply H].
+Qed.
+
 Lemma post_init_empty root live ri inputs dflt :
   NoDup (map fst inputs) ->
   post_init {| w_root := root; w_files := []; w_live := live |} ri inputs dflt
   = {| w_root := root; w_files := base_files ri inputs dflt; w_live := live |}.
 Proof.
   intros Hnd. unfold post_init. cbv zeta.
-  change (write {| w_root := root; w_files := []; w_live := live |} PRunInfo (Json (encode ri)))
-    with {| w_root := root; w_files := [(PRunInfo, Json (encode ri))]; w_live := live |}.
-  rewrite fold_write_inputs_fresh; [|exact Hnd|intros; reflexivity].
-  unfold write. cbn [w_files with_files w_root w_live]. rewrite fs_set_fresh; [reflexivity|].
-  cbn. induction inputs as [|[n v] l IH]; cbn; [reflexivity|]. apply IH. now inversion Hnd.
+  rewrite fold_write_inputs_fresh; [|exact Hnd|intros; reflexivity]. cbn [app].
+  unfold write. cbn [w_files with_files w_root w_live].
+  rewrite fs_set_fresh by (apply fs_get_inputs_other; discriminate).
+  rewrite fs_set_fresh.
+  - unfold base_files. now rewrite <- app_assoc.
+  - rewrite fs_get_app, fs_get_inputs_other by discriminate. reflexivity.
 Qed.
 
 Section BaseLookups.
@@ -396,12 +403,14 @@ Section BaseLookups.
   Hypothesis Hnd : NoDup (map fst inputs).
 
   Lemma get_runinfo : fs_get (base_files ri inputs dflt ++ rest) PRunInfo = Some (Json (encode ri)).
-  Proof. reflexivity. Qed.
+  Proof.
+    unfold base_files. rewrite <- app_assoc, fs_get_app, fs_get_inputs_other by discriminate. reflexivity.
+  Qed.
 
   Lemma get_input n v : In (n, v) inputs ->
     fs_get (base_files ri inputs dflt ++ rest) (PInput n) = Some (Pickled v).
   Proof.
-    intros Hin. unfold base_files. cbn [app fs_get path_eqb]. rewrite <- app_assoc, fs_get_app.
+    intros Hin. unfold base_files. rewrite <- app_assoc, fs_get_app.
     assert (G : fs_get (map (fun kv : str * pyv => (PInput (fst kv), Pickled (snd kv))) inputs) (PInput n) = Some (Pickled v)).
     { clear rest. induction inputs as [|[n' v'] l IH]; [contradiction|]. cbn [map fs_get fst snd path_eqb].
       inversion Hnd as [|? ? Hn Hl]; subst. destruct Hin as [[= -> ->]|Hin].
@@ -414,17 +423,14 @@ Section BaseLookups.
 
   Lemma get_defaults : fs_get (base_files ri inputs dflt ++ rest) PDefaults = Some (Pickled dflt).
   Proof.
-    unfold base_files. cbn [app fs_get path_eqb]. rewrite <- app_assoc, fs_get_app.
-    assert (G : fs_get (map (fun kv : str * pyv => (PInput (fst kv), Pickled (snd kv))) inputs) PDefaults = None).
-    { clear. induction inputs as [|kv l IH]; [reflexivity|]. cbn. exact IH. }
-    rewrite G. cbn. reflexivity.
+    unfold base_files. rewrite <- app_assoc, fs_get_app, fs_get_inputs_other by discriminate. reflexivity.
   Qed.
 
   Lemma post_init_same root live :
     post_init {| w_root := root; w_files := base_files ri inputs dflt ++ rest; w_live := live |} ri inputs dflt
     = {| w_root := root; w_files := base_files ri inputs dflt ++ rest; w_live := live |}.
   Proof.
-    unfold post_init. cbv zeta. rewrite (write_same _ PRunInfo) by (cbn [w_files]; apply get_runinfo).
+    unfold post_init. cbv zeta.
     set (w := {| w_root := root; w_files := _; w_live := live |}).
     assert (G : forall l, (forall kv, In kv l -> In kv inputs) ->
               fold_left (fun acc kv => write acc (PInput (fst kv)) (Pickled (snd kv))) l w = w).
@@ -432,10 +438,16 @@ Section BaseLookups.
       rewrite write_same.
       - apply IH. intros kv Hkv. apply Hl. now right.
       - cbn [w_files w fst snd]. apply get_input. apply Hl. now left. }
-    rewrite G by auto. apply write_same. cbn [w_files w]. apply get_defaults.
+    rewrite G by auto. rewrite (write_same w PDefaults) by (cbn [w_files w]; apply get_defaults).
+    apply write_same. cbn [w_files w]. apply get_runinfo.
   Qed.
 End BaseLookups.
 
+Lemma base_files_owner ri inputs dflt q c : In (q, c) (base_files ri inputs dflt) -> path_owner q = None.
+Proof.
+  unfold base_files. intros H. apply in_app_or in H as [H|[[= <- <-]|[[= <- <-]|[]]]]; try reflexivity.
+  apply in_map_iff in H as [kv [[= <- <-] _]]. reflexivity.
+Qed.
 
 (* RunInfo.load on a folder that holds the files written by the run's own RunInfo returns that RunInfo, the
    inputs and the defaults, and re-dumps exactly what is already there *)
@@ -592,18 +604,14 @@ Section RunWorld.
     destruct (flat_files_lookup false persist _ fl i d p Hfl) as [fs [lv [Hof Hget]]]; auto.
     - rewrite <- (map_map snd od_name). now rewrite map_snd_combine_seq.
     - exists i, fs, lv. split; [exact Hof|]. cbn [w_files W]. rewrite fs_get_skip; [exact Hget|].
-      intros q c Hq. rewrite Hp. unfold base_files in Hq. destruct Hq as [[= <- <-]|Hq]; [discriminate|].
-      apply in_app_or in Hq as [Hq|[[= <- <-]|[]]]; [|discriminate].
-      apply in_map_iff in Hq as [kv [[= <- <-] _]]. discriminate.
+      intros q c Hq. rewrite Hp, (base_files_owner _ _ _ _ _ Hq). discriminate.
   Qed.
 
   Lemma world_files_owner q c : In (q, c) (w_files W) ->
     path_owner q = None \/ exists i d fs lv, In d descs /\ out_files false persist i d = Ok (fs, lv) /\ In (q, c) fs.
   Proof.
     cbn [w_files W]. intros H. apply in_app_or in H as [H|H].
-    - left. unfold base_files in H. destruct H as [[= <- <-]|H]; [reflexivity|].
-      apply in_app_or in H as [H|[[= <- <-]|[]]]; [|reflexivity].
-      apply in_map_iff in H as [kv [[= <- <-] _]]. reflexivity.
+    - left. eapply base_files_owner; eauto.
     - right. apply in_flat_map in H as [[fs lv] [Hfs Hq]]. cbn [fst] in Hq.
       destruct (In_nth_error _ _ Hfs) as [n Hn].
       assert (G : forall (l : list (nat * out_desc)) fl n, mapM (fun nd => out_files false persist (fst nd) (snd nd)) l = Ok fl ->
@@ -677,21 +685,14 @@ Section RunWorld.
       rewrite Hget, Hget'; cbn; rewrite str_eqb_refl; auto.
   Qed.
 
-  (* without persist_memory a dict-kind output leaves no folder *)
+  (* without persist_memory a dict-kind output leaves no dict file *)
   Lemma dict_absent o k mask a : In (OMapped o k mask a) descs -> k <> FileArrayK -> persist = false ->
-    dir_exists W o = false.
+    fs_get (w_files W) (PDictFile o) = None.
   Proof.
-    intros Hd Hk Hp. unfold dir_exists.
-    destruct (existsb _ (w_files W)) eqn:E; [|reflexivity]. exfalso.
-    apply existsb_exists in E as [[q c] [Hin Hq]]. cbn [fst] in Hq.
-    assert (Ho : path_owner q = Some o /\ forall o', q <> PSingle o').
-    { destruct q; try discriminate; apply str_eqb_eq in Hq; subst; split; try reflexivity; intros; discriminate. }
-    destruct Ho as [Ho Hns].
-    destruct (world_files_owner q c Hin) as [Hnone|[i [d [fs [lv [Hd' [Hof Hqin]]]]]]]; [congruence|].
-    pose proof (out_files_owner _ _ _ _ _ _ Hof q c Hqin) as Hown. rewrite Ho in Hown. injection Hown as Hown.
-    assert (d = OMapped o k mask a) by (apply (NoDup_names_eq descs); auto).
-    subst d. cbn [out_files] in Hof. cbv zeta in Hof. destruct (mapM _ (all_indices _)); [|discriminate]. cbn [bind] in Hof. rewrite Hp in Hof.
-    destruct k; try contradiction; injection Hof as <- <-; contradiction.
+    intros Hd Hk Hp.
+    destruct (world_lookup _ (PDictFile o) Hd eq_refl) as [i [fs [lv [Hof Hget]]]].
+    cbn [out_files] in Hof. cbv zeta in Hof. destruct (mapM _ (all_indices _)); [|discriminate]. cbn [bind] in Hof.
+    rewrite Hp in Hof. rewrite Hget. destruct k; try contradiction; injection Hof as <- <-; reflexivity.
   Qed.
 
   (* _init_arrays on the folder of the run: the storage objects described by item_of, no change to the folder *)
@@ -706,21 +707,13 @@ Section RunWorld.
     - destruct (Bool.bool_dec persist true) as [Ep|Ep]; [|apply Bool.not_true_is_false in Ep].
       + destruct (dict_file o DictK mask a Hd ltac:(discriminate) Ep) as [vals [Hv [Hdir Hfile]]].
         exists (SDictArr o (shp a) mask vals). cbn [item_of]. rewrite Ep, Hv. split; [reflexivity|].
-        assert (Hex : dir_exists W o = true).
-        { unfold dir_exists. apply existsb_exists. exists (PArrDir o, Dir). split.
-          - now apply fs_get_In.
-          - cbn. apply str_eqb_refl. }
-        rewrite Hex. unfold unpickle. rewrite Hfile. reflexivity.
+        rewrite Hfile. unfold unpickle. rewrite Hfile. reflexivity.
       + exists (SDictArr o (shp a) mask []). cbn [item_of]. rewrite Ep. split; [reflexivity|].
         rewrite (dict_absent o DictK mask a Hd ltac:(discriminate) Ep). reflexivity.
     - destruct (Bool.bool_dec persist true) as [Ep|Ep]; [|apply Bool.not_true_is_false in Ep].
       + destruct (dict_file o SharedDictK mask a Hd ltac:(discriminate) Ep) as [vals [Hv [Hdir Hfile]]].
         exists (SDictArr o (shp a) mask vals). cbn [item_of]. rewrite Ep, Hv. split; [reflexivity|].
-        assert (Hex : dir_exists W o = true).
-        { unfold dir_exists. apply existsb_exists. exists (PArrDir o, Dir). split.
-          - now apply fs_get_In.
-          - cbn. apply str_eqb_refl. }
-        rewrite Hex. unfold unpickle. rewrite Hfile. reflexivity.
+        rewrite Hfile. unfold unpickle. rewrite Hfile. reflexivity.
       + exists (SDictArr o (shp a) mask []). cbn [item_of]. rewrite Ep. split; [reflexivity|].
         rewrite (dict_absent o SharedDictK mask a Hd ltac:(discriminate) Ep). reflexivity.
   Qed.
